@@ -95,7 +95,9 @@ func VerifV9InsertSet() {
 	verifAssert(len(ref.DataSets) == 2, "the unperturbed packet yields its two records")
 	p := verifCase(3)
 	kind := verifCase(2)
-	blen := verifCase(verifParam("maxbody", 6) + 1)
+	// body lengths around the decoders' "more than 4 octets left" rule, and one long enough
+	// to hold something that looks like a set of its own
+	blen := [6]int{0, 1, 4, 5, 8, 12}[verifCase(verifParam("bodies", 5))]
 	w2 := &verifW{b: make([]byte, tot+4+blen)}
 	verifWriteHeader(w2)
 	var bad uint16
